@@ -258,7 +258,8 @@ func vsWorld(plus bool) *World {
 		{Path: "~* ^/iregex", Action: &conf_v1.Action{Pass: "tea"}},
 		{Path: "=/exact", Action: &conf_v1.Action{Pass: "cip"}},
 		{Path: "/grpc", Action: &conf_v1.Action{Pass: "grpc-up"}},
-		{Path: "/vsr", Route: ns + "/vsr1"},
+		// a delegating route carries route-level attributes too (the generator emits their locations for it)
+		{Path: "/vsr", Route: ns + "/vsr1", ErrorPages: errPages, Policies: pref("acl-deny")},
 	}
 	vs.Spec.Routes[6].Splits[0].Weight, vs.Spec.Routes[6].Splits[1].Weight = 60, 40
 	if plus {
@@ -580,28 +581,37 @@ func vsCrossWorld(plus bool, only string) *World {
 		return "/" + tail
 	}
 	// one world per path kind: small files keep every rendering (and its evaluation in Rocq) cheap
+	// route-level attributes are crossed with what the route does (action, splits, matches, delegation to a
+	// VirtualServerRoute): every kind of route carries error pages
+	ep := func() []conf_v1.ErrorPage {
+		return []conf_v1.ErrorPage{
+			{Codes: []int{404}, Return: &conf_v1.ErrorPageReturn{ActionReturn: conf_v1.ActionReturn{Code: 200, Type: "text/plain", Body: "ep ${upstream_status}",
+				Headers: []conf_v1.Header{{Name: "x-ep", Value: "${upstream_status}"}}}}},
+			{Codes: []int{502}, Redirect: &conf_v1.ErrorPageRedirect{ActionRedirect: conf_v1.ActionRedirect{URL: "${scheme}://ep.example.com/e", Code: 302}}},
+		}
+	}
 	kinds := []string{only}
 	var routes []conf_v1.Route
 	for _, k := range kinds {
 		routes = append(routes,
-			conf_v1.Route{Path: mk(k, k+"-pass"), Action: pass("u-http")},
+			conf_v1.Route{Path: mk(k, k+"-pass"), Action: pass("u-http"), ErrorPages: ep()},
 			conf_v1.Route{Path: mk(k, k+"-proxy"), Action: proxy("u-http")},
 			conf_v1.Route{Path: mk(k, k+"-proxy-tls"), Action: proxy("u-tls")},
 			conf_v1.Route{Path: mk(k, k+"-proxy-grpc"), Action: proxy("u-grpc")},
 			conf_v1.Route{Path: mk(k, k+"-redirect"), Action: redirect()},
 			conf_v1.Route{Path: mk(k, k+"-return"), Action: ret()},
-			conf_v1.Route{Path: mk(k, k+"-splits"), Splits: splits("u-http")},
-			conf_v1.Route{Path: mk(k, k+"-matches"), Matches: matches("u-http"), Action: proxy("u-http")},
-			conf_v1.Route{Path: mk(k, k+"-vsr"), Route: ns + "/cross-" + k},
+			conf_v1.Route{Path: mk(k, k+"-splits"), Splits: splits("u-http"), ErrorPages: ep()},
+			conf_v1.Route{Path: mk(k, k+"-matches"), Matches: matches("u-http"), Action: proxy("u-http"), ErrorPages: ep()},
+			conf_v1.Route{Path: mk(k, k+"-vsr"), Route: ns + "/cross-" + k, ErrorPages: ep()},
 		)
 	}
 	vsrKinds := []string{only}
 	switch only {
 	case "exact":
-		routes = append(routes, conf_v1.Route{Path: mk("exact", "exact-vsr2"), Route: ns + "/cross-exact2"})
+		routes = append(routes, conf_v1.Route{Path: mk("exact", "exact-vsr2"), Route: ns + "/cross-exact2", ErrorPages: ep()})
 		vsrKinds = append(vsrKinds, "exact2")
 	case "regex":
-		routes = append(routes, conf_v1.Route{Path: mk("regex", "regex-vsr2"), Route: ns + "/cross-regex2"})
+		routes = append(routes, conf_v1.Route{Path: mk("regex", "regex-vsr2"), Route: ns + "/cross-regex2", ErrorPages: ep()})
 		vsrKinds = append(vsrKinds, "regex2")
 	}
 	vs := &conf_v1.VirtualServer{ObjectMeta: meta("cross")}
@@ -621,7 +631,7 @@ func vsCrossWorld(plus bool, only string) *World {
 			vsr.Spec.Subroutes = []conf_v1.Route{{Path: p, Action: proxy("u-tls")}}
 		case "prefix":
 			vsr.Spec.Subroutes = []conf_v1.Route{
-				{Path: p + "/proxy", Action: proxy("u-http")},
+				{Path: p + "/proxy", Action: proxy("u-http"), ErrorPages: ep()},
 				{Path: p + "/splits", Splits: splits("u-http")},
 				{Path: p + "/matches", Matches: matches("u-http"), Action: proxy("u-tls")},
 			}
